@@ -41,7 +41,8 @@ Exploration: (1) STATE-GRAPH CLOSURE per (extension set, handler kind): BFS over
 symbol by replaying its witness prefix on a fresh server until no new state appears.  The BFS lives in
 gen_cases(): run_case() registers the states each 'bfs' case reached in a module-level table that the
 generator (consumed lazily, case by case, by the same worker) reads to decide what to yield next -- so every
-BFS step is an ordinary replayable case.  (2) all sequences of length 2 after no prefix, after EHLO and after EHLO MAIL RCPT; thorough adds
+BFS step is an ordinary replayable case.  (2) all sequences of length 2 after no prefix, after EHLO, after EHLO MAIL RCPT and (STARTTLS sets) after
+EHLO STARTTLS EHLO; thorough adds
 all sequences of length 3 over a reduced 31-symbol alphabet after the same prefixes and over the full alphabet after EHLO
 for the configurations without STARTTLS.  (3) seeded random walks up to 12 units.
 """
@@ -74,7 +75,9 @@ LEVEL_TEXT = ('Real Server (+ real SmtpSession in half of the configurations) dr
               '"bfs-closure-reached" counts closed configurations; one witness prefix per abstract state) and for the '
               'bounded-depth enumeration when the generator was not cut; everything else is sampling. Held = held on '
               'the sequences run.')
-LEVEL_NOTE = ('Trusted: ScriptSocket / the socketpair proxy (recv and sendall hooks), the unit-feeding rule, the reply '
+LEVEL_NOTE = ('Replies are observed where the server hands them to its socket (sendall on the scripted socket / on the proxy / '
+              'on the TLS socket after the handshake); in socketpair mode the client end additionally reads them off the wire. '
+              'Trusted: ScriptSocket / the socketpair proxy (recv and sendall hooks), the unit-feeding rule, the reply '
               'splitter, the spec automaton (~150 lines written from the statement), the recording handler / validator '
               'class that apply scripted verdicts by current unit (never by call ordinal).')
 TECHNIQUE = 'runtime monitoring: online spec-automaton checker with exact recv-boundary attribution; BFS state-graph closure'
@@ -84,7 +87,7 @@ RULE = ('case = (extension set in {default,SIZE,STARTTLS,AUTH,ALL}, handler kind
         'QUIT arg, STARTTLS, STARTTLS arg, AUTH PLAIN initial-response / challenge / LOGIN / cancel / bad base64 / unknown '
         'mechanism / bare, unknown verb, empty line, CLOSE, TLSHANDSHAKE, BANNER_, HAVE_DATA) x handler verdict for '
         'that callback in {accept,450,550,421} (message-received also 221). Generated by (1) BFS closure of the abstract '
-        'state graph, (2) all sequences of length 2 after {nothing, EHLO, EHLO MAIL RCPT} (thorough: also length 3 over a reduced 31-symbol alphabet after the same prefixes and over the full alphabet after EHLO for configurations without STARTTLS), (3) seeded random walks up to 12 units. '
+        'state graph, (2) all sequences of length 2 after {nothing, EHLO, EHLO MAIL RCPT, and EHLO STARTTLS EHLO where offered} (thorough: also length 3 over a reduced 31-symbol alphabet after the same prefixes and over the full alphabet after EHLO for configurations without STARTTLS), (3) seeded random walks up to 12 units. '
         'One case = one session = one evaluation. non-trivial & distinct = distinct (config, sequence) that reaches an '
         'open transaction (MAIL accepted) or contains a rejected command followed by a command that depends on it '
         '(EHLO/HELO -> MAIL, MAIL -> RCPT/DATA, RCPT -> DATA)')
@@ -1060,6 +1063,8 @@ def gen_bfs(ext, kind):
 
 # prefixes of the bounded-depth enumeration: nothing, greeted+EHLO, and an open transaction with one recipient
 DEPTH_PREFIXES = ([], ['EHLO'], ['EHLO', 'MAIL', 'RCPT'])
+# ... and, where STARTTLS is offered, an encrypted greeted session (the only place AUTH PLAIN/LOGIN is allowed)
+TLS_PREFIXES = (['EHLO', 'STARTTLS', 'EHLO'],)
 # random walks: the weight of a symbol is multiplied when it is the natural continuation of the previous one
 FOLLOW = {'EHLO': {'MAIL': 5}, 'HELO': {'MAIL': 5}, 'MAIL': {'RCPT': 6}, 'RCPT': {'RCPT': 2, 'DATA': 4, 'DATAempty': 3,
                                                                                    'DATAbig': 3},
@@ -1089,7 +1094,7 @@ def gen_cases(tier, seed, shard, nshards):
     n = 0
     for ext, kind in CONFIGS:
         alpha = alphabet_for(ext)
-        for prefix in DEPTH_PREFIXES:
+        for prefix in DEPTH_PREFIXES + (TLS_PREFIXES if 'STARTTLS' in EXT_FEATURES[ext] else ()):
             for a in alpha:
                 for b in alpha:
                     if n % nshards == shard:
